@@ -35,12 +35,13 @@ def suite_passes(V, patch, scratch):
 
 def main(V, args):
     no_suite = "--no-suite" in args
+    suite_only = "--suite-only" in args
     filters = [a for a in args if not a.startswith("--")]
     patches = sorted(glob.glob(os.path.join(V.ROOT, "mutants", "*.patch"))) + sorted(glob.glob(os.path.join(V.ROOT, "seeded", "*", "patch.diff")))
     if filters:
         patches = [p for p in patches if any(f in p for f in filters)]
     rc, out = sh(["git", "-C", V.REPO, "status", "--porcelain", "--untracked-files=no"])
-    if out.strip():
+    if out.strip() and not suite_only:
         V.die("/repo has uncommitted changes; refusing to apply mutants")
     scratch = "/tmp/verif-selftest-wt"
     if not no_suite:
@@ -63,6 +64,10 @@ def main(V, args):
             if not no_suite:
                 ok, msg = suite_passes(V, patch, scratch)
                 suite = ("passes: " if ok else "FAILS: ") + msg
+            if suite_only:
+                rows.append((name, prop, suite, "(check not run: --suite-only)", time.time() - t0))
+                print("%-55s %s %s" % (name, prop, suite[:100]), flush=True)
+                continue
             rc, out = sh(["git", "-C", V.REPO, "apply", patch])
             if rc != 0:
                 rows.append((name, prop, suite, "patch does not apply to /repo", 0))
@@ -79,13 +84,14 @@ def main(V, args):
             if verdict.startswith("MACHINERY"):
                 print(out[-1500:])
     finally:
-        sh(["git", "-C", V.REPO, "checkout", "--", "."])
+        if not suite_only:
+            sh(["git", "-C", V.REPO, "checkout", "--", "."])
         if not no_suite:
             sh(["git", "-C", V.REPO, "worktree", "remove", "--force", scratch])
-    with open(os.path.join(V.ROOT, "mutants", "RESULTS.md"), "a" if filters else "w") as fh:
+    with open(os.path.join(V.ROOT, "mutants", "SUITE.md" if suite_only else "RESULTS.md"), "a" if filters else "w") as fh:
         fh.write("\n## selftest run %s (repo %s)\n\n| change | property | repository suite with the change | quick check |\n|---|---|---|---|\n" % (
             time.strftime("%Y-%m-%d %H:%M"), sh(["git", "-C", V.REPO, "log", "--format=%h", "-1"])[1].strip()))
         for name, prop, suite, verdict, dt in rows:
             fh.write("| %s | %s | %s | %s |\n" % (name, prop, suite.replace("|", "/")[:160], verdict))
-    missed = [r for r in rows if not r[3].startswith("DETECTED")]
+    missed = [r for r in rows if not r[3].startswith("DETECTED") and not suite_only]
     return 1 if missed else 0
